@@ -4,6 +4,7 @@ use elements::{Block, Transaction};
 use serde_json::json;
 
 use crate::engine::*;
+use crate::gen::ext_g1 as xg;
 use crate::gen::{self, TxOpts};
 use crate::refimpl::enc;
 use crate::{ensure_eq};
@@ -18,10 +19,22 @@ pub fn check_tx_sizes(tx: &Transaction, ctx: &mut Ctx) -> R {
     let dweight = guard::guard("discount_weight", 0, || tx.discount_weight())?;
     let dvsize = guard::guard("discount_vsize", 0, || tx.discount_vsize())?;
     ctx.evals_n(5);
-    ensure_eq!(lib_len, full.len(), "serialize length differs from the reference encoding length");
+    // attribution (failure path only): when the library's own serialization already differs in length
+    // from the reference encoding the encoder is at fault (C01); say whether size() follows it
+    let attr = if lib_len != full.len() && size == lib_len {
+        " [attribution: size() equals the length of the library's own serialization, which differs from the reference encoding: the encoder is at fault (C01), size() is consistent with it]"
+    } else {
+        ""
+    };
+    ensure_eq!(lib_len, full.len(), "serialize length differs from the reference encoding length{}", attr);
     ensure_eq!(size, full.len(), "size() is not the length of the consensus serialization ({:?})", summary(tx));
     let want_weight = 3 * stripped.len() + full.len();
     ensure_eq!(weight, want_weight, "weight() is not 3*stripped + full ({:?})", summary(tx));
+    // the deprecated aliases are part of the public API as well
+    #[allow(deprecated)]
+    let (gs, gw) = guard::guard("get_size/get_weight", 0, || (tx.get_size(), tx.get_weight()))?;
+    ensure_eq!(gs, full.len(), "get_size() (deprecated alias) is not the length of the consensus serialization");
+    ensure_eq!(gw, want_weight, "get_weight() (deprecated alias) is not 3*stripped + full");
     ensure_eq!(vsize, (want_weight + 3) / 4, "vsize() is not ceil(weight/4)");
     // discount: per output, witness bytes beyond the 2 of an empty witness, 4*24 for a confidential
     // value, 4*32 for a confidential nonce
@@ -77,11 +90,7 @@ fn tx_shape_sig(tx: &Transaction) -> (bool, bool, bool) {
     (inw, outw, b)
 }
 
-fn tx_sizes(t: &mut Tape, ctx: &mut Ctx) -> R {
-    let mut o = TxOpts::default();
-    // emphasised shapes
-    let shape = t.below(6);
-    let mut tx = gen::gen_tx(t, &o);
+fn apply_shape(tx: &mut Transaction, shape: usize) {
     match shape {
         0 => {
             // no witness at all
@@ -114,7 +123,14 @@ fn tx_sizes(t: &mut Tape, ctx: &mut Ctx) -> R {
         }
         _ => {}
     }
-    o.big = true;
+}
+
+fn tx_sizes(t: &mut Tape, ctx: &mut Ctx) -> R {
+    let o = TxOpts::default();
+    // emphasised shapes
+    let shape = t.below(6);
+    let mut tx = gen::gen_tx(t, &o);
+    apply_shape(&mut tx, shape);
     check_tx_sizes(&tx, ctx)?;
     let (inw, outw, b) = tx_shape_sig(&tx);
     ctx.class(match (inw, outw) {
@@ -136,21 +152,61 @@ fn tx_sizes(t: &mut Tape, ctx: &mut Ctx) -> R {
     Ok(())
 }
 
-fn blocks(t: &mut Tape, ctx: &mut Ctx) -> R {
-    let b: Block = gen::gen_block(t);
+/// `tx_sizes` on transactions with every count class whose elements are varied at every index, with
+/// boundary-length proofs (`ext_g1::gen_tx_x`)
+fn tx_sizes_big(t: &mut Tape, ctx: &mut Ctx) -> R {
+    let o = TxOpts::default();
+    let shape = t.below(6);
+    let ladder: &[usize] = if ctx.tier == Tier::Thorough { xg::LADDER_INOUT } else { &[1000] };
+    let mut tx = xg::gen_tx_x(t, &o, ladder);
+    apply_shape(&mut tx, shape);
+    check_tx_sizes(&tx, ctx)?;
+    let feats = xg::tx_features_x(&tx);
+    for f in &feats {
+        ctx.class(&format!("x:{}", f));
+    }
+    let (inw, outw, _) = tx_shape_sig(&tx);
+    ctx.class(match (inw, outw) {
+        (false, false) => "x:witness:none",
+        (true, false) => "x:witness:inputs-only",
+        (false, true) => "x:witness:outputs-only",
+        (true, true) => "x:witness:both",
+    });
+    if !feats.is_empty() {
+        ctx.nontrivial(&enc::tx_full(&tx));
+    }
+    Ok(())
+}
+
+fn check_block_sizes(b: &Block, ctx: &mut Ctx) -> Result<(usize, usize, Vec<u8>), Failure> {
     let mut want = Vec::new();
-    enc::block(&mut want, &b);
+    enc::block(&mut want, b);
     let size = guard::guard("Block::size", 0, || b.size())?;
     let weight = guard::guard("Block::weight", 0, || b.weight())?;
-    let lib_len = guard::guard("serialize", 0, || serialize(&b).len())?;
+    let lib_len = guard::guard("serialize", 0, || serialize(b).len())?;
     ctx.evals_n(2);
-    ensure_eq!(lib_len, want.len(), "block serialize length differs from reference");
-    ensure_eq!(size, want.len(), "Block::size() is not the serialized length (txs={})", b.txdata.len());
+    let attr = if lib_len != want.len() && size == lib_len {
+        " [attribution: Block::size() equals the length of the library's own serialization, which differs from the reference encoding: the encoder is at fault (C01)]"
+    } else {
+        ""
+    };
+    ensure_eq!(lib_len, want.len(), "block serialize length differs from reference{}", attr);
+    ensure_eq!(size, want.len(), "Block::size() is not the serialized length (txs={}, header {:?})", b.txdata.len(), xg::header_features_x(&b.header));
     let mut hdr = Vec::new();
     enc::header(&mut hdr, &b.header, false);
     let base = hdr.len() + enc::compact_size_len(b.txdata.len() as u64);
     let txw: usize = b.txdata.iter().map(|tx| 3 * enc::tx_stripped(tx).len() + enc::tx_full(tx).len()).sum();
-    ensure_eq!(weight, 4 * base + txw, "Block::weight() is not 4*(header+count) + sum of tx weights (txs={})", b.txdata.len());
+    ensure_eq!(weight, 4 * base + txw, "Block::weight() is not 4*(header+count) + sum of tx weights (txs={}, header {:?})", b.txdata.len(), xg::header_features_x(&b.header));
+    #[allow(deprecated)]
+    let (gs, gw) = guard::guard("Block::get_size/get_weight", 0, || (b.get_size(), b.get_weight()))?;
+    ensure_eq!(gs, want.len(), "Block::get_size() (deprecated alias) is not the serialized length");
+    ensure_eq!(gw, 4 * base + txw, "Block::get_weight() (deprecated alias) is not 4*(header+count) + sum of tx weights");
+    Ok((size, weight, want))
+}
+
+fn blocks(t: &mut Tape, ctx: &mut Ctx) -> R {
+    let b: Block = gen::gen_block(t);
+    let (size, weight, want) = check_block_sizes(&b, ctx)?;
     ctx.class(if b.header.is_dynafed() { "block:dynafed" } else { "block:proof" });
     if b.txdata.len() >= 0xfd || b.txdata.iter().any(|t| tx_shape_sig(t).0 != tx_shape_sig(t).1) {
         ctx.nontrivial(&want);
@@ -162,6 +218,27 @@ fn blocks(t: &mut Tape, ctx: &mut Ctx) -> R {
     Ok(())
 }
 
+/// `blocks` with headers whose fields / counts cross 0xfd and 0x10000, transaction counts 0..8, 20,
+/// 9..0xfb, 0xfc..0xfe, 1000 (thorough: 0xffff, 0x10000, 0x10001) and witness transactions at
+/// every index of a big block (`ext_g1::gen_block_x`)
+fn blocks_big(t: &mut Tape, ctx: &mut Ctx) -> R {
+    let ladder: &[usize] = if ctx.tier == Tier::Thorough { xg::LADDER_TXS_SIZE_ONLY } else { &[1000] };
+    let b: Block = xg::gen_block_x(t, ladder);
+    let (size, weight, want) = check_block_sizes(&b, ctx)?;
+    let feats = xg::block_features_x(&b);
+    for f in &feats {
+        ctx.class(&format!("x:{}", f));
+    }
+    ctx.class(if matches!(b.header.ext, elements::BlockExtData::Dynafed { .. }) { "xblock:dynafed" } else { "xblock:proof" });
+    if !feats.is_empty() {
+        ctx.nontrivial(&want);
+    }
+    if ctx.wants_sample("xblock") && !feats.is_empty() {
+        ctx.sample("xblock", || json!({"txs": b.txdata.len(), "x_features": feats, "size": size, "weight": weight}));
+    }
+    Ok(())
+}
+
 pub fn property() -> Property {
     Property {
         id: "C12",
@@ -169,12 +246,21 @@ pub fn property() -> Property {
                proof of two, counts/lengths at 0xfc/0xfd/0xfe/0xffff/0x10000); oracle: size == len(reference full), weight == \
                3*len(reference stripped)+len(full), vsize == ceil/4, discount_weight == weight - sum over outputs(witness \
                bytes-2, 96 if value confidential, 128 if nonce confidential), discount_vsize == ceil/4, proof length \
-               accessors. blocks: size == len(reference block), weight == 4*(header+count)+sum tx weights. Non-trivial: a \
-               count or length exactly at a varint boundary, or witness on only one side; distinct by encoding.",
+               accessors, deprecated aliases get_size / get_weight. tx_sizes_big: the same on transactions with every count \
+               class (7..0xfb, 0xfc..0xfe, 0x100.., 1000; thorough 5000) whose inputs / outputs are varied at every index \
+               (confidential fields, issuances, proofs, witnesses beyond index 60) and range proofs of exactly \
+               0xfc..0x10001 bytes. blocks: size == len(reference block), weight == 4*(header+count)+sum tx weights (and the \
+               deprecated aliases). blocks_big: the same with headers whose solution / challenge / parameter scripts / \
+               witness items / extension entries and counts cross 0xfd and 0x10000, transaction counts 0..8, 20, 9..0xfb, \
+               0xfc..0xfe, 1000 (thorough 0xffff / 0x10000 / 0x10001) and witness transactions at every index of a big block. \
+               Non-trivial: a count or length exactly at a varint boundary, or witness on only one side; for the _big \
+               sub-checks a count class above 8, a long header field or something non-default at index >= 60; distinct by encoding.",
         assumptions: &["reference encoder anchored on the repository vectors"],
         subs: vec![
             Sub { name: "tx_sizes", kind: Kind::Tape { max_len: 3000, quick: 720_000, thorough: 6_000_000, f: tx_sizes } },
             Sub { name: "blocks", kind: Kind::Tape { max_len: 3000, quick: 180_000, thorough: 1_200_000, f: blocks } },
+            Sub { name: "tx_sizes_big", kind: Kind::Tape { max_len: 3000, quick: 40_000, thorough: 1_000_000, f: tx_sizes_big } },
+            Sub { name: "blocks_big", kind: Kind::Tape { max_len: 3000, quick: 40_000, thorough: 1_000_000, f: blocks_big } },
         ],
         known: vec![],
     }
